@@ -688,6 +688,24 @@ def direct_compounds(els):
         if not (close(1 - n_.real, 1 - want.real, 0.0, rel=1e-5) and close(n_.imag, want.imag, 0.0, rel=1e-5)):
             fail("C05:refraction-formula", "index_of_refraction(%r, density=%r, energy=%r) = %r; 1 - lambda^2/(2 pi) (rho + i irho) 1e-6 = %r"
                  % (seq, rho, x, n_, want), input=dict(compound=repr(seq), density=rho, energy=x))
+        # the end nodes of the tables belong to the tabulated range: refraction and reflectivity there follow the same
+        # formula on the SLD at that energy (energy -> wavelength -> energy must land on the node again)
+        for xe in (30.0, 0.03):
+            re_ = attempt(xsf.xray_sld, seq, density=rho, energy=xe)
+            ne_ = attempt(xsf.index_of_refraction, seq, density=rho, energy=xe)
+            me_ = attempt(xsf.mirror_reflectivity, seq, density=rho, energy=xe, angle=0.2)
+            if isinstance(re_, Exception) or math.isnan(float(re_[0])) or math.isnan(float(re_[1])):
+                continue        # (an element of the compound has no f1 at this node: nothing to compare)
+            want_e = 1 - (HC / xe) ** 2 / (2 * math.pi) * complex(float(re_[0]), float(re_[1])) * 1e-6
+            ok_e = not isinstance(ne_, Exception) and not isinstance(me_, Exception)
+            if ok_e:
+                ne_ = complex(np.asarray(ne_).reshape(-1)[0])
+                me1 = float(np.asarray(me_).reshape(-1)[0])
+                ok_e = close(1 - ne_.real, 1 - want_e.real, 0.0, rel=1e-5) and close(ne_.imag, want_e.imag, 0.0, rel=1e-5) and 0.0 <= me1 <= 1.0
+            if not ok_e:
+                fail("C05:refraction-at-end-node", "index_of_refraction(%r, density=%r, energy=%r) = %r, mirror_reflectivity(.., angle=0.2) = %r; "
+                     "xray_sld at that energy is %r, so 1 - lambda^2/(2 pi) (rho + i irho) 1e-6 = %r"
+                     % (seq, rho, xe, ne_, me_, (float(re_[0]), float(re_[1])), want_e), input=dict(compound=repr(seq), density=rho, energy=xe))
         # the same through natural_density=: the refraction index of the labelled compound is that of its natural
         # twin at the same natural density, and follows the formula on the SLD of that call
         if not bad:
